@@ -160,18 +160,14 @@ func (ev *tplEval) sprintf(fc *fctx, call *ast.CallExpr) Sketch {
 				}
 			}
 		}
-		// a local every definition of which is a constant string: one alternative per constant
-		if id := identOf(call.Args[0]); id != nil && fc.fn != nil && paramIndexDecl(info, fc.fn, objOf(info, id)) < 0 {
-			ds := defsIn(info, fc.fn, objOf(info, id))
+		// a local every definition of which is a constant string (or a concatenation of such): one alternative per constant
+		if host := funcContaining(call.Args[0]); host != nil && fc.fn != nil {
+			alts, _ := constStringAlts(info, host, call.Args[0], 0)
 			var opts []Sketch
-			for _, d := range ds {
-				dtv := info.Types[d]
-				if dtv.Value == nil || dtv.Value.Kind() != constant.String {
-					opts = nil
-					break
-				}
-				lit := &ast.BasicLit{ValuePos: call.Args[0].Pos(), Kind: token.STRING, Value: strconv.Quote(constant.StringVal(dtv.Value))}
-				info.Types[lit] = types.TypeAndValue{Type: types.Typ[types.String], Value: dtv.Value}
+			for _, a := range alts {
+				cv := constant.MakeString(a)
+				lit := &ast.BasicLit{ValuePos: call.Args[0].Pos(), Kind: token.STRING, Value: strconv.Quote(a)}
+				info.Types[lit] = types.TypeAndValue{Type: types.Typ[types.String], Value: cv}
 				opts = append(opts, ev.sprintf(fc, &ast.CallExpr{Fun: call.Fun, Lparen: call.Lparen, Args: append([]ast.Expr{lit}, call.Args[1:]...), Rparen: call.Rparen}))
 			}
 			switch len(opts) {
